@@ -1,50 +1,415 @@
-"""C18 — 256-bit arithmetic, compact targets and text encodings are exact."""
+"""C18 — 256-bit arithmetic, compact targets and text encodings are exact.
+
+Pipeline (DESIGN 4.2): regenerate coq/Gen/TextTables.v from the repo, build
+Properties_C18.vo (all theorems, Print Assumptions, hygiene), extract the
+executable models, and run them against the rebuilt library on boundary-aimed,
+exhaustive-small and random inputs. The models are the *proved specification*:
+every disagreement is a concrete failing input of the implementation.
+"""
+import hashlib
+import json
 import os
+import subprocess
+import time
+
 import vlib
 
 LEVEL = "proof"
-ASSUMPTIONS = []
+ASSUMPTIONS = [
+    "sha256 is a Section variable of the address model; the correspondence run feeds the model the values of the real "
+    "function (hashlib, cross-checked against the library's sha256 on every hashed input of the run)",
+    "base59 round trip assumes the input length fits size_t (length <= 2^64-1), as the C++ leading-zero loop counts modulo 2^64",
+]
 HARNESSES = [("h_C18", "rel")]
 META = {
-    "text": "Theorems (Coq, all inputs): compact-target codec round-trip on every canonical positive compact value "
-            "(toBits(fromBits c) = c, no sign/overflow flag, target < 2^256). The model is executable and is compared "
-            "with ArithUint256::fromBits/toBits of the rebuilt library on boundary-aimed and random inputs; a "
+    "text": "Theorems (Coq, all inputs, by induction over the byte list): every ArithUint256 operation as coded "
+            "(+=, -=, unary -, ~, ++, --, *=uint32, *=, /=, <<=, >>=, compareTo, bits, getLow64, uint64 ctor) equals the "
+            "mathematical operation mod 2^256 on the little-endian value; /= computes the exact quotient and throws iff the "
+            "divisor is 0; shifts for every amount incl. >= 256. Compact targets: the byte-level fromBits/toBits equal the "
+            "value-level ones; fromBits characterised for every uint32 (value, negative, overflow flag = mathematical "
+            "overflow); toBits sign-bit behaviour; fromBits(toBits v) = v truncated to its mantissa bytes; canonical round "
+            "trip. Text: base59/base58/hex decode(encode bs) = bs for every byte string, every foreign character rejected, "
+            "alphabets/index tables (regenerated from the source on every run) mutually inverse; address: derived "
+            "addresses parse back to themselves. The executable models are compared with the rebuilt library; a "
             "disagreement is a concrete failing input since the model is the proved specification.",
-    "note": "Trusted: Coq kernel, extraction (ExtrOcamlBasic), OCaml driver, C++ harness. Modelled not verified: "
-            "the byte-array big-integer code is reached only through the correspondence run.",
-    "technique": "Coq proof (structural, over Z) + extraction-based differential correspondence",
+    "note": "Trusted: Coq kernel, extraction (ExtrOcamlBasic), OCaml driver, C++ harness, tools/gen_text_tables.py. "
+            "sha256 is a Section variable (values supplied by the run). The <<=/>>= models gather per destination byte "
+            "what the C++ loops scatter per source byte (same per-byte expressions); tied by the correspondence run. "
+            "thorough: the 2^32 compact sweep runs inside the harness against a C port of the proved spec (trusted glue, "
+            "validated against the extracted model on the quick stream). Items named *_partial in Properties_C18.v are "
+            "listed in the evidence under 'partial'.",
+    "technique": "Coq proof (induction over byte lists; Z arithmetic) + tables regenerated from source + "
+                 "extraction-based differential correspondence + direct round-trip oracles on the implementation",
 }
 
+M256 = (1 << 256) - 1
+CORPUS = os.path.join(vlib.VERIF, "corpus", "C18")
 
-def gen_cases(ctx, n):
-    r = ctx.rng
-    cases = []
-    k = 0
+B58 = "123456789ABCDEFGHJKLMNPQRSTUVWXYZabcdefghijkmnopqrstuvwxyz"
+B59 = B58 + "0"
 
-    def add(op, *args):
-        nonlocal k
-        k += 1
-        cases.append(("c%d" % k, op, list(args)))
-    # compact: every size byte x sign x mantissa boundary classes + random
-    mants = [0, 1, 0x7f, 0x80, 0xff, 0x100, 0x7fff, 0x8000, 0xffff, 0x10000, 0x7fffff]
-    for size in range(0, 256):
-        for sign in (0, 0x800000):
-            for m in mants:
-                add("frombits", "%x" % ((size << 24) | sign | m))
-    for _ in range(n):
-        add("frombits", "%x" % r.bits(32))
-    # toBits: values of every bit length, boundaries around byte lengths
-    for b in range(0, 257):
-        for v in {(1 << b) - 1, (1 << b), (1 << b) + 1, r.bits(b)}:
-            if 0 <= v < (1 << 256):
-                add("tobits", "%x" % v, str(r.below(2)))
-    for _ in range(n):
-        add("tobits", "%x" % r.bits(r.range(0, 256)), str(r.below(2)))
-    return cases
+
+# ---------------------------------------------------------------------------
+# python-side helpers used only to BUILD inputs (never as an oracle)
+# ---------------------------------------------------------------------------
+def py_b58(bs):
+    z = 0
+    while z < len(bs) and bs[z] == 0:
+        z += 1
+    v = int.from_bytes(bs, "big")
+    out = ""
+    while v:
+        v, r = divmod(v, 58)
+        out = B58[r] + out
+    return "1" * z + out
+
+
+def py_base(bs, alphabet):
+    z = 0
+    while z < len(bs) and bs[z] == 0:
+        z += 1
+    v = int.from_bytes(bs, "big")
+    out = ""
+    n = len(alphabet)
+    while v:
+        v, r = divmod(v, n)
+        out = alphabet[r] + out
+    return alphabet[0] * z + out
+
+
+def hx(b):
+    b = bytes(b)
+    return b.hex() if b else "-"
+
+
+def sha(b):
+    return hashlib.sha256(bytes(b)).digest()
+
+
+class Gen:
+    def __init__(self, ctx):
+        self.ctx = ctx
+        self.r = ctx.rng
+        self.cases = []
+        self.hist = {}
+        self.hashed = {}      # sha256 inputs used by address cases -> digest
+        self.notes = {}
+
+    def add(self, op, *args):
+        cid = "c%d" % (len(self.cases) + 1)
+        self.cases.append((cid, op, [a if isinstance(a, str) else "%x" % a for a in args]))
+        self.hist[op] = self.hist.get(op, 0) + 1
+
+    def note(self, k, n=1):
+        self.notes[k] = self.notes.get(k, 0) + n
+
+    def shapair(self, data):
+        d = sha(data)
+        self.hashed[bytes(data)] = d
+        return "%s:%s" % (hx(data), hx(d))
+
+    # ---------------- compact ----------------
+    def compact(self, n):
+        r = self.r
+        mants = [0, 1, 0x7f, 0x80, 0xff, 0x100, 0x7fff, 0x8000, 0xffff, 0x10000, 0x7fffff]
+        for size in range(0, 256):
+            for sign in (0, 0x800000):
+                for m in mants:
+                    c = (size << 24) | sign | m
+                    self.add("frombits", c)
+                    self.add("frombits_b", c)
+                    self.add("pfrombits", c)
+        self.note("compact: size byte x sign x mantissa class", 256 * 2 * len(mants))
+        for _ in range(n):
+            c = r.bits(32)
+            self.add("frombits", c)
+            self.add("frombits_b", c)
+            self.add("pfrombits", c)
+        for b in range(0, 257):
+            for v in sorted({(1 << b) - 1, (1 << b), (1 << b) + 1, r.bits(b)}):
+                if 0 <= v <= M256:
+                    ng = str(r.below(2))
+                    self.add("tobits", v, ng)
+                    self.add("tobits_b", v, ng)
+                    self.add("ptobits", v, ng)
+        self.note("toBits: bit lengths 0..256 at 2^b-1, 2^b, 2^b+1, random", 257)
+        for _ in range(n):
+            v = r.bits(r.range(0, 256))
+            ng = str(r.below(2))
+            self.add("tobits", v, ng)
+            self.add("tobits_b", v, ng)
+            self.add("ptobits", v, ng)
+
+    # ---------------- U256 ----------------
+    def boundary_values(self):
+        r = self.r
+        vs = {0, 1, 2, 0xff, 0x100, M256, M256 - 1, M256 - 0xff, 1 << 255, (1 << 255) - 1, (1 << 255) + 1}
+        for k in range(8, 256, 8):          # byte (limb) boundaries: carries across every limb
+            vs |= {(1 << k) - 1, 1 << k, (1 << k) + 1, M256 - ((1 << k) - 1), M256 ^ (1 << k)}
+        for k in (31, 32, 33, 63, 64, 65, 127, 128, 129, 254):
+            vs |= {(1 << k) - 1, 1 << k, (1 << k) + 1}
+        for k in range(0, 32):              # a single 0xff / 0x01 / 0x80 byte at every position
+            vs |= {0xff << (8 * k), 0x01 << (8 * k), 0x80 << (8 * k), M256 ^ (0xff << (8 * k))}
+        vs |= {int("01" * 32, 16), int("ff00" * 16, 16), int("00ff" * 16, 16), int("80" * 32, 16), int("7f" * 32, 16)}
+        return sorted(v & M256 for v in vs)
+
+    def rnd256(self):
+        r = self.r
+        k = r.below(7)
+        if k == 0:
+            return r.bits(256)
+        if k == 1:
+            return r.bits(r.range(0, 256))
+        if k == 2:
+            return M256 - r.bits(r.range(0, 64))
+        if k == 3:
+            return ((1 << (8 * r.range(0, 32))) - 1) & M256
+        if k == 4:
+            return 1 << r.range(0, 255)
+        if k == 5:   # long runs of 0xff bytes: carry chains across many limbs
+            lo = r.range(0, 31)
+            hi = r.range(lo, 31)
+            return ((((1 << (8 * (hi - lo + 1))) - 1) << (8 * lo)) | r.bits(8 * lo)) & M256
+        return (r.bits(r.range(0, 16)) << r.range(0, 250)) & M256
+
+    def u256(self, npairs, nrand, thorough):
+        r = self.r
+        B = self.boundary_values()
+        self.note("u256 boundary operands", len(B))
+        # unary ops on every boundary value
+        for a in B:
+            for op in ("not", "neg", "inc", "dec", "bits", "low64"):
+                self.add(op, a)
+        for w in (0, 1, 0xff, 0x100, 0xffff, 0x10000, 0xffffffff, 0xfffffffe, 0x80000000, 0x7fffffff, 10, 58, 59):
+            self.add("ofu64", w)
+            for a in (B if thorough else B[::7] + [M256, 0, 1]):
+                self.add("mul32", a, w)
+        for k in range(0, 65):
+            for v in {(1 << k) - 1, (1 << k) & ((1 << 64) - 1), r.bits(k)}:
+                self.add("ofu64", v)
+        # binary ops on boundary pairs
+        pairs = []
+        if thorough:
+            pairs = [(a, b) for a in B for b in B]
+        else:
+            for _ in range(npairs):
+                pairs.append((r.choice(B), r.choice(B)))
+            for a in (0, 1, M256, M256 - 1, 1 << 255):
+                for b in (0, 1, M256, M256 - 1, 1 << 255):
+                    pairs.append((a, b))
+        for a, b in pairs:
+            for op in ("add", "sub", "mul", "cmp"):
+                self.add(op, a, b)
+        # division: divisors of every bit length 0..256 against dividends of assorted lengths
+        for db in range(0, 257):
+            ds = {(1 << db) >> 1, ((1 << db) - 1), ((1 << db) >> 1) | r.bits(max(db - 1, 0))}
+            for d in sorted(ds):
+                for a in (M256, r.bits(256), r.bits(r.range(db, 256)) if db <= 256 else 0, d, (d * r.bits(16) + r.below(max(d, 1))) & M256,
+                          max(d - 1, 0), (d + 1) & M256):
+                    self.add("div", a, d)
+        self.note("div: divisor bit lengths 0..256 (x3 shapes) x 7 dividends", 257)
+        for a in B[:: (1 if thorough else 5)]:
+            self.add("div", a, 0)
+            self.add("div", M256, a)
+            self.add("div", a, a)
+            self.add("div", a, 3)
+        # shifts 0..300 and the unsigned-int extremes
+        shvals = [M256, 1, 1 << 255, int("a5" * 32, 16), r.bits(256)] + ([r.bits(256) for _ in range(6)] if thorough else [])
+        for sh in list(range(0, 301)) + [511, 512, 1 << 16, (1 << 31) - 1, 1 << 31, (1 << 32) - 1, (1 << 32) - 8]:
+            for a in shvals:
+                self.add("shl", a, sh)
+                self.add("shr", a, sh)
+        self.note("shifts 0..300 + uint extremes, per value", len(shvals))
+        # random operands
+        for _ in range(nrand):
+            a, b = self.rnd256(), self.rnd256()
+            for op in ("add", "sub", "mul", "div", "cmp"):
+                self.add(op, a, b)
+            self.add("div", a, r.bits(r.range(1, 64)))
+            self.add("mul32", a, r.bits(32))
+            self.add("shl", a, r.range(0, 300))
+            self.add("shr", a, r.range(0, 300))
+            for op in ("not", "neg", "inc", "dec", "bits", "low64"):
+                self.add(op, a)
+
+    # ---------------- text codecs ----------------
+    def text(self, thorough):
+        r = self.r
+        # encoders: exhaustive short byte strings
+        strings = [b""] + [bytes([i]) for i in range(256)]
+        if thorough:
+            strings += [bytes([i, j]) for i in range(256) for j in range(256)]
+            for i in (0, 1, 0x7f, 0x80, 0xff):
+                strings += [bytes([i, j, k]) for j in range(256) for k in range(256)]
+            self.note("encoders: all byte strings of length <= 2, length 3 with first byte in {0,1,7f,80,ff}", len(strings))
+        else:
+            edge = [0, 1, 0x39, 0x3a, 0x3b, 0x7f, 0x80, 0xfe, 0xff]
+            strings += [bytes([i, j]) for i in edge for j in range(256)]
+            strings += [bytes([j, i]) for i in edge for j in range(256)]
+            strings += [bytes([i, j, k]) for i in edge for j in edge for k in edge]
+            strings += [bytes(r.bytes(2)) for _ in range(1500)] + [bytes(r.bytes(3)) for _ in range(1500)]
+            self.note("encoders: all byte strings of length <= 1, length 2 with an edge byte, edge^3, random 2/3", len(strings))
+        lens = [4, 5, 7, 8, 15, 16, 20, 31, 32, 33, 34, 50, 64, 100]
+        for n in lens:
+            for _ in range(6 if thorough else 2):
+                strings.append(bytes(r.bytes(n)))
+                z = r.range(1, n)
+                strings.append(bytes(z) + bytes(r.bytes(n - z)))            # leading zero bytes
+                strings.append(bytes([0xff]) * n)
+        strings += [bytes(n) for n in (1, 2, 3, 10, 32, 34, 64)]                # only zeros
+        for bs in strings:
+            self.add("hexstr", hx(bs))
+            self.add("b58enc", hx(bs))
+            self.add("b59enc", hx(bs))
+        # decoders: valid texts and every single-character corruption of them
+        nvalid = 12 if thorough else 4
+        for codec, alpha, op in (("b58", B58, "b58dec"), ("b59", B59, "b59dec")):
+            valid = ["", alpha[0], alpha[0] * 3, alpha[-1], alpha[-1] * 4]
+            for _ in range(nvalid):
+                n = r.range(1, 12)
+                bs = bytes(r.below(3)) + bytes(r.bytes(n))
+                valid.append(py_base(bs, alpha))
+            valid.append(py_base(bytes(r.bytes(32)), alpha))
+            for t in valid:
+                self.add(op, hx(t.encode()))
+            ncorr = 0
+            for t in valid[: (len(valid) if thorough else 7)] + [valid[-1]]:
+                tb = t.encode()
+                step = 1 if len(tb) <= 16 else 5
+                for i in range(0, len(tb), step):
+                    for c in range(256):
+                        if c != tb[i]:
+                            self.add(op, hx(tb[:i] + bytes([c]) + tb[i + 1:]))
+                            ncorr += 1
+                for i in range(0, len(tb) + 1, step):                # insertions
+                    for c in (0, 0x20, 0x09, 0x30, 0x49, 0x4f, 0x6c, 0x7f, 0x80, 0xff):
+                        self.add(op, hx(tb[:i] + bytes([c]) + tb[i:]))
+            self.note(codec + ": single-character corruptions (all 255 replacements per position)", ncorr)
+            # all 1-char texts, 2-char texts over alphabet+edges (thorough: all 65536)
+            for c in range(256):
+                self.add(op, hx(bytes([c])))
+            two = range(256) if thorough else [ord(x) for x in "1z0 "] + [0, 9, 0x2f, 0x3a, 0x7f, 0x80, 0xb1, 0xff]
+            for c in two:
+                for d in range(256):
+                    self.add(op, hx(bytes([c, d])))
+            # random alphabet texts (valid digits, arbitrary value) and random junk
+            for _ in range(400 if thorough else 60):
+                n = r.range(1, 45)
+                self.add(op, hx("".join(r.choice(alpha) for _ in range(n)).encode()))
+                self.add(op, hx(bytes(r.bytes(r.range(1, 8)))))
+        # base58 whitespace handling
+        for t in ("2g", "111", "StV1DL6CwTryKyV", py_b58(bytes(r.bytes(10)))):
+            for pre in ("", " ", "\t\n", " \r\v\f"):
+                for post in ("", " ", "  \t", "\n"):
+                    self.add("b58dec", hx((pre + t + post).encode()))
+            self.add("b58dec", hx((t[:1] + " " + t[1:]).encode()))
+            self.add("b58dec", hx((t + " x").encode()))
+            self.add("b58dec", hx(t.encode() + b"\x00"))
+            self.add("b58dec", hx(t.encode() + b"\x00zz"))
+            self.add("b58dec", hx(b" " + t.encode() + b" \x00"))
+        for n in (1, 2, 5, 40):
+            self.add("b58dec", hx(b" " * n))
+        # hex parsing
+        hexes = ["", "00", "0", "a", "ab", "AB", "aB", "abc", "ab c", " ab", "ab ", "a b", "ab cd", "ab\tcd\n", "0x12",
+                 "12zz34", "zz", "g0", "0g", "12 3", "1 23", "deadbeef", "DEADBEEF", "de ad be ef", "\x0bde", "12\x0034",
+                 "1\x002", "\x00", " \x00ab"]
+        for h in hexes:
+            self.add("parsehex", hx(h.encode("latin1")))
+            self.add("ishex", hx(h.encode("latin1")))
+        for c in range(256):
+            self.add("parsehex", hx(bytes([c])))
+            self.add("parsehex", hx(bytes([0x31, c])))
+            self.add("parsehex", hx(bytes([0x31, 0x32, c, 0x33, 0x34])))
+            self.add("parsehex", hx(bytes([c, 0x32])))
+            self.add("ishex", hx(bytes([c, 0x32])))
+            self.add("ishex", hx(bytes([0x61, c])))
+        for _ in range(800 if thorough else 150):
+            n = r.range(0, 24)
+            s = bytes(r.choice(b"0123456789abcdefABCDEF  \tgz\x00\xff") for _ in range(n))
+            self.add("parsehex", hx(s))
+            self.add("ishex", hx(s))
+
+    # ---------------- address ----------------
+    def address(self, nkeys):
+        r = self.r
+        made = []
+        for i in range(nkeys):
+            n = r.choice([0, 1, 33, 65, 88, r.range(0, 120)])
+            k = bytes(r.bytes(n))
+            h1 = sha(k)
+            data = b"V" + py_b58(h1)[:24].encode()
+            full = data + py_b58(sha(data))[:5].encode()
+            # isDerivedFromPublicKey also hashes the full address text (addressChecksum)
+            self.add("addrpk", hx(k), self.shapair(k), self.shapair(data), self.shapair(full))
+            made.append(full)
+        # parse: valid standard addresses, the default address, corruptions
+        valid = made[:6] + [b"V111111111111111111111111G3LuZ"]
+        # valid and invalid multisig addresses: V m n <22 base58 chars> <4 checksum> 0
+        for (m, n) in ((1, 2), (2, 2), (2, 3), (58, 58), (3, 2), (1, 1), (57, 58), (1, 58)):
+            body = "".join(r.choice(B58) for _ in range(22))
+            data = ("V" + B58[m - 1] + B58[n - 1] + body).encode()
+            valid.append(data + py_b58(sha(data))[:4].encode() + b"0")
+        for a in valid:
+            self.add("addrstr", hx(a), self.shapair(a[:25]))
+        ncorr = 0
+        for a in valid[:3] + valid[7:9]:
+            for i in range(len(a)):
+                for c in sorted({0, 0x20, 0x30, 0x31, 0x32, 0x49, 0x56, 0x7a, 0x7f, 0x80, 0xff, (a[i] + 1) & 0xff, r.below(256)}):
+                    if c != a[i]:
+                        b = a[:i] + bytes([c]) + a[i + 1:]
+                        self.add("addrstr", hx(b), self.shapair(b[:25]))
+                        ncorr += 1
+            for b in (a[:-1], a + b"1", b"", a[:25], a + a):
+                self.add("addrstr", hx(b), self.shapair(b[:25]))
+        self.note("address: single-character corruptions", ncorr)
+
+
+def run_stream(ctx, model, impl, cases, tag):
+    inp = os.path.join(ctx.work, "cases-%s.txt" % tag)
+    with open(inp, "w") as f:
+        for cid, op, args in cases:
+            f.write("%s %s %s\n" % (cid, op, " ".join(args)))
+    t0 = time.time()
+    rc1, mres, _, merr = vlib.run_lines([model], inp, timeout=3000)
+    t1 = time.time()
+    rc2, ires, orc, ierr = vlib.run_lines([impl], inp, timeout=3000)
+    t2 = time.time()
+    return rc1, rc2, mres, ires, orc, merr + ierr, (round(t1 - t0, 2), round(t2 - t1, 2))
+
+
+def sweep(ctx, impl, nproc):
+    """thorough: all 2^32 compact values inside the harness (C port of the proved spec vs the library)"""
+    chunks = []
+    per = (1 << 32) // nproc
+    procs = []
+    for i in range(nproc):
+        lo = i * per
+        hi = (1 << 32) if i == nproc - 1 else (i + 1) * per
+        p = subprocess.Popen([impl], stdin=subprocess.PIPE, stdout=subprocess.PIPE, stderr=subprocess.PIPE)
+        p.stdin.write(("s%d sweep %x %x\n" % (i, lo, hi)).encode())
+        p.stdin.close()
+        procs.append((p, lo, hi))
+    total = 0
+    bad = []
+    for p, lo, hi in procs:
+        out = p.stdout.read().decode()
+        p.wait()
+        ok = False
+        for line in out.split("\n"):
+            t = line.split()
+            if len(t) >= 3 and t[1] == "SWEEP-OK":
+                total += int(t[2], 16)
+                ok = True
+            elif len(t) >= 3 and t[1] == "SWEEP-MISMATCH":
+                bad.append((t[2], " ".join(t[3:])))
+                ok = True
+        if not ok:
+            ctx.broken.append("compact-sweep: no result for chunk %x..%x" % (lo, hi))
+    return total, bad
 
 
 def run(ctx):
-    proved = ctx.prove()
+    ctx.prove()
     okm, model, mlog = vlib.build_model("C18")
     okh, hs, hlog = vlib.build_harness(["h_C18"])
     if not okm:
@@ -53,27 +418,112 @@ def run(ctx):
         ctx.broken.append("harness-build: " + hlog[-300:])
     if not (okm and okh):
         return
-    n = 3000 if ctx.tier == "quick" else 200000
-    cases = ctx.replay["cases"] if ctx.replay and "cases" in ctx.replay else gen_cases(ctx, n)
-    inp = os.path.join(ctx.work, "cases.txt")
-    with open(inp, "w") as f:
-        for cid, op, args in cases:
-            f.write("%s %s %s\n" % (cid, op, " ".join(args)))
-    rc1, mres, _, merr = vlib.run_lines([model], inp)
-    rc2, ires, orc, ierr = vlib.run_lines([hs["h_C18"]], inp)
+    impl = hs["h_C18"]
+    thorough = ctx.tier == "thorough"
+    g = Gen(ctx)
+    corpus_ids = set()
+    if ctx.replay and "cases" in ctx.replay:
+        for c in ctx.replay["cases"]:
+            g.cases.append((c[0], c[1], list(c[2])))
+            g.hist[c[1]] = g.hist.get(c[1], 0) + 1
+    else:
+        # corpus first: minimised past failures / witnesses
+        if os.path.isdir(CORPUS):
+            for fn in sorted(os.listdir(CORPUS)):
+                if fn.endswith(".json"):
+                    try:
+                        obj = json.load(open(os.path.join(CORPUS, fn)))
+                    except Exception:
+                        continue
+                    for c in obj.get("cases", []):
+                        cid = "k%d" % (len(corpus_ids) + 1)
+                        corpus_ids.add(cid)
+                        g.cases.append((cid, c[1], list(c[2])))
+                        g.hist[c[1]] = g.hist.get(c[1], 0) + 1
+        g.compact(3000 if not thorough else 200000)
+        g.u256(npairs=1200 if not thorough else 0, nrand=700 if not thorough else 40000, thorough=thorough)
+        g.text(thorough)
+        g.address(40 if not thorough else 1500)
+    cases = g.cases
+    byid = {c[0]: c for c in cases}
+    rc1, rc2, mres, ires, orc, err, times = run_stream(ctx, model, impl, cases, "main")
+    bad = vlib.diff_results(mres, ires)
     ctx.cov["evaluations"] = len(cases)
     ctx.cov["distinct_nontrivial"] = len({(op, tuple(a)) for _, op, a in cases})
-    ctx.cov["rule"] = ("compact codec: all 256 size bytes x sign x 11 mantissa classes + random 32-bit values; "
-                       "toBits on every bit length 0..256 at 2^b-1,2^b,2^b+1,random; distinct = distinct (op,args)")
-    for c in cases[:3] + cases[-2:]:
-        ctx.sample({"case": c, "model": mres.get(c[0]), "impl": ires.get(c[0])})
-    bad = vlib.diff_results(mres, ires)
+    ctx.cov["rule"] = ("distinct = distinct (op, arguments) lines; every line is one call of a public function of the "
+                       "library compared with the extracted model; see input_distribution")
+    ctx.cov["input_distribution"] = {
+        "op_histogram": dict(sorted(g.hist.items())),
+        "boundary_classes": g.notes,
+        "corpus_cases": len(corpus_ids),
+        "outcome_kinds": {
+            "THROW": sum(1 for v in ires.values() if v == "THROW"),
+            "INVALID": sum(1 for v in ires.values() if v.startswith("INVALID")),
+            "OK": sum(1 for v in ires.values() if v.startswith("OK")),
+        },
+        "text_lengths": {
+            "max_encoder_input": max([len(a[0]) // 2 for _, op, a in cases if op in ("b58enc", "b59enc", "hexstr")] + [0]),
+            "max_decoder_input": max([len(a[0]) // 2 for _, op, a in cases if op in ("b58dec", "b59dec", "parsehex")] + [0]),
+        },
+        "seconds_model_impl": times,
+    }
+    for c in cases[:2] + cases[len(cases) // 2: len(cases) // 2 + 2] + cases[-2:]:
+        ctx.sample({"case": [c[0], c[1], [x[:80] for x in c[2]]], "model": (mres.get(c[0]) or "")[:120],
+                    "impl": (ires.get(c[0]) or "")[:120]})
     ctx.cov["disagreements_checked"] = len(cases)
-    ctx.cov["traces_validated_against_impl"] = len(cases) - len(bad)
-    byid = {c[0]: c for c in cases}
-    # the model IS the proved specification here: a disagreement is a concrete failing input
-    for i in bad[:5]:
-        ctx.violation({"kind": "input", "cases": [byid[i]] if i in byid else [], "model": mres.get(i), "impl": ires.get(i),
-                       "what": "implementation differs from the proved specification"})
+    # sha256 values fed to the model are the library's
+    if g.hashed:
+        hin = os.path.join(ctx.work, "sha.txt")
+        items = list(g.hashed.items())
+        with open(hin, "w") as f:
+            for i, (k, v) in enumerate(items):
+                f.write("h%d sha %s\n" % (i, hx(k)))
+        _, hres, _, _ = vlib.run_lines([impl], hin)
+        wrong = [i for i, (k, v) in enumerate(items) if hres.get("h%d" % i) != hx(v)]
+        ctx.cov["input_distribution"]["sha256_values_cross_checked"] = len(items)
+        if wrong:
+            ctx.broken.append("sha256: hashlib and the library differ on %s" % hx(items[wrong[0]][0]))
+    # a disagreement / oracle failure is re-run once on its own to exclude flakiness, then reported
+    suspects = list(dict.fromkeys(bad + [i for i, _ in orc]))
+    confirmed = []
+    if suspects:
+        sub = [byid[i] for i in suspects if i in byid]
+        _, _, m2, i2, o2, _, _ = run_stream(ctx, model, impl, sub, "recheck")
+        o2ids = {i for i, _ in o2}
+        for c in sub:
+            if m2.get(c[0]) != i2.get(c[0]) or c[0] in o2ids:
+                confirmed.append((c, m2.get(c[0]), i2.get(c[0]), [t for i, t in o2 if i == c[0]]))
+    ctx.cov["traces_validated_against_impl"] = len(cases) - len(confirmed)
+    # the model IS the proved specification: a disagreement is a concrete failing input
+    seen_ops = set()
+    for c, m, i, o in sorted(confirmed, key=lambda x: (x[0][0] not in corpus_ids, sum(len(a) for a in x[0][2]))):
+        if c[1] in seen_ops and len(seen_ops) < 5:
+            continue
+        seen_ops.add(c[1])
+        ctx.violation({"kind": "input", "cases": [[c[0], c[1], c[2]]], "model": m, "impl": i, "oracle": o,
+                       "what": ("direct oracle failed on the implementation" if o else
+                                "implementation differs from the proved specification (extracted Coq model)")})
     if rc1 != 0 or rc2 != 0:
-        ctx.broken.append("runner: model rc=%d impl rc=%d %s" % (rc1, rc2, (merr + ierr)[-300:]))
+        ctx.broken.append("runner: model rc=%d impl rc=%d %s" % (rc1, rc2, err[-300:]))
+    missing = [c[0] for c in cases if c[0] not in mres or c[0] not in ires]
+    if missing and not confirmed:
+        ctx.broken.append("runner: %d cases without a result, first %s" % (len(missing), byid[missing[0]][:2]))
+    partial = [t for t in ctx.cov.get("theorems", []) if t.endswith("_partial")]
+    ctx.cov["partial"] = partial
+    tb = ctx.cov.setdefault("trusted_base", [])
+    tb.append("sha256: Section variable of the address theorems; values supplied per case and cross-checked against the library")
+    tb.append("tools/gen_text_tables.py: regex parse of the C++ initialisers (fails closed), output coq/Gen/TextTables.v")
+    tb.append("modelled, not verified: the compiled C++; the <<=/>>= models gather per destination byte (C++ scatters per source byte)")
+    if thorough and not ctx.replay:
+        t0 = time.time()
+        total, sbad = sweep(ctx, impl, min(16, vlib.NCPU))
+        ctx.cov["compact_sweep"] = {"values": total, "exhaustive": total == (1 << 32), "seconds": round(time.time() - t0, 1),
+                                    "mismatches": len(sbad)}
+        ctx.cov["exhaustive"] = total == (1 << 32)
+        tb.append("compact sweep: C port of the proved fromBits/toBits specification inside harness/h_C18.cpp is trusted glue, "
+                  "validated against the extracted model on every pfrombits/ptobits case of the quick stream")
+        if total != (1 << 32) and not sbad:
+            ctx.broken.append("compact-sweep: covered %d of 2^32 values" % total)
+        for cval, text in sbad[:3]:
+            ctx.violation({"kind": "input", "cases": [["s1", "frombits", [cval]], ["s2", "pfrombits", [cval]]],
+                           "what": "compact sweep: library differs from the C port of the proved specification: " + text})
